@@ -3,7 +3,7 @@ import json, os, random, re, time
 from common import *
 import txnfam, findings
 
-CFG = 'SPECIFICATION Spec\nCONSTANTS Rows <- %s\n TableOf <- %s\n Monitors <- %s\n MaxTxns = %d\n MaxCuts = %d\n PurgeVariant = "%s"\nINVARIANT Resynchronised\nCHECK_DEADLOCK FALSE\n'
+CFG = 'SPECIFICATION Spec\nCONSTANTS Rows <- %s\n TableOf <- %s\n Monitors <- %s\n MaxTxns = %d\n MaxCuts = %d\n PurgeVariant = "%s"\n SinceVariant = "%s"\n ServerKnows = %s\nINVARIANT Resynchronised\nCHECK_DEADLOCK FALSE\n'
 FILES = ["Reconn.tla", "MC_Reconn.tla", "Leader.tla", "MC_Leader.tla", "TraceLeader.tla"]
 LCFG = 'SPECIFICATION Spec\nCONSTANTS\n Endpoints = {"A","B"}\n MaxEvents = %d\n Variant = "%s"\nINVARIANT AttachedToLeader\nPROPERTY Settles\nCHECK_DEADLOCK FALSE\n'
 
@@ -13,8 +13,9 @@ def model_check(tier):
         copy_spec(sc.dir, FILES)
         tot_s = tot_t = 0
         cases = None
-        for rows, tof, mons in (("MCRows", "MCTableOf", "MCMonitors2"), ("MCRows1", "MCTableOf1", "MCMonitors1")):
-            open(sc.path("MC.cfg"), "w").write(CFG % (rows, tof, mons, 3 if tier == "quick" else 4, 2, "intended"))
+        for rows, tof, mons, knows in (("MCRows", "MCTableOf", "MCMonitors2", "FALSE"), ("MCRows1", "MCTableOf1", "MCMonitors1", "FALSE"),
+                                       ("MCRows", "MCTableOf", "MCMonitors2", "TRUE"), ("MCRows1", "MCTableOf1", "MCMonitors1", "TRUE")):
+            open(sc.path("MC.cfg"), "w").write(CFG % (rows, tof, mons, 3 if tier == "quick" else 4, 2, "intended", "intended", knows))
             rc, out, wall = run_tlc(sc.dir, "MC_Reconn.tla", cfg="MC.cfg", workers=NCPU, timeout=3000)
             if "Model checking completed. No error has been found." not in out:
                 raise Broken("MC_Reconn: the intended design violates C16 or TLC failed:\n" + out[-3000:])
@@ -23,11 +24,16 @@ def model_check(tier):
             tot_t += g
             if cases is None:
                 cases = tlc_prints(out, "CASE")
-        open(sc.path("MCv.cfg"), "w").write(CFG % ("MCRows", "MCTableOf", "MCMonitors2", 3, 2, "pinned"))
+        open(sc.path("MCv.cfg"), "w").write(CFG % ("MCRows", "MCTableOf", "MCMonitors2", 3, 2, "pinned", "intended", "FALSE"))
         rc, o2, w2 = run_tlc(sc.dir, "MC_Reconn.tla", cfg="MCv.cfg", workers=4, timeout=900)
         if "Invariant Resynchronised is violated" not in o2:
             raise Broken("MC_Reconn: the pinned purge rule is not refuted")
-        return {"mc_states": tot_s, "mc_transitions": tot_t, "variant_refuted": "pinned (every restarted monitor purges the cache)"}, cases
+        open(sc.path("MCs.cfg"), "w").write(CFG % ("MCRows", "MCTableOf", "MCMonitors2", 3, 2, "intended", "always", "TRUE"))
+        rc, o3, w3 = run_tlc(sc.dir, "MC_Reconn.tla", cfg="MCs.cfg", workers=4, timeout=900)
+        if "Invariant Resynchronised is violated" not in o3:
+            raise Broken("MC_Reconn: quoting the last transaction id with several monitors is not refuted")
+        return {"mc_states": tot_s, "mc_transitions": tot_t,
+                "variants_refuted": ["pinned (every restarted monitor purges the cache)", "always (several monitors quote their last transaction id although the cache was emptied)"]}, cases
 
 
 def leader_model_check():
@@ -132,6 +138,7 @@ def run_shards(vh, cases):
             res["runs"] = len(stats) + len(crashes)
             res["faults_fired"] = sum(s["fired"] for s in stats)
             res["markers"] = sum(s["markers"] for s in stats)
+            res["since_found"] = sum(s.get("sinceFound", 0) for s in stats)
             res["sample"] = {"case": sh[0], "stats": stats[0]} if stats else None
             return res
     return pmap(one, shards)
@@ -160,7 +167,9 @@ def run_check(prop, tier):
     multi = [c for c in cases if len(c["methods"]) > 1]
     single = [c for c in cases if len(c["methods"]) == 1]
     gated = [c for c in cases if any(f["kind"] == "gated" for f in c["faults"])]
-    sel = (gated + [c for c in multi if c not in gated][:160] + [c for c in single if c not in gated][:50]) if tier == "quick" else cases
+    since = [c for c in cases if c.get("since")]
+    sel = (gated + [c for c in multi if c not in gated and not c.get("since")][:160] + [c for c in single if c not in gated and not c.get("since")][:50]
+           + [c for c in since if len(c["methods"]) == 1][:30] + [c for c in since if len(c["methods"]) > 1][:40]) if tier == "quick" else cases
     res = run_shards(vh, sel)
     lcov, lcases = leader_model_check()
     lsh = [lcases[i::8] for i in range(8)]
@@ -173,11 +182,14 @@ def run_check(prop, tier):
                 "transitions": cov["mc_transitions"] + lcov["leader_transitions"] + sum(r["transitions"] for r in res + lres),
                 "traces_validated_against_impl": len(res) + len(lres), "scenarios_enumerated": total, "scenarios_run": sum(r["runs"] for r in res),
                 "faults_fired": sum(r["faults_fired"] for r in res), "client_transactions_with_markers": sum(r["markers"] for r in res),
+                "scenarios_with_a_server_that_remembers_transactions": len([c for c in sel if c.get("since")]),
+                "replies_with_found_true": sum(r.get("since_found", 0) for r in res),
                 "samples": [r["sample"] for r in res[:2] if r.get("sample")], "known_findings_seen": verdict["known"],
                 "rule": "TLC checks Reconn.tla (cuts at any point, sequential monitor restarts, commits by others meanwhile) for 1 and 2 monitors and refutes "
                         "the pinned purge rule; it enumerates fault scenarios (1-3 monitors of any method; cut after / inside the k-th message of either "
                         "direction in steady state or again while reconnecting; silent peer detected by the inactivity probe; 0-3 transactions by others "
-                        "while away; two faults in a row); each runs on a real client with reconnect behind a message-boundary aware proxy; once connected "
+                        "while away; two faults in a row; against a server that answers monitor_cond_since with found = false and, through the proxy's since mode, "
+                        "against one that remembers the last transaction id and sends the difference only); each runs on a real client with reconnect behind a message-boundary aware proxy; once connected "
                         "again the cache must converge to the database and every marked Transact call must be applied exactly / at most once; "
                         "Leader.tla (TLC: attached to a leader once the row has been seen, settles under fairness; sticky variant refuted) enumerates leadership "
                         "histories run on a real leader-only client with two servers"})
